@@ -363,8 +363,12 @@ def check_idle_pairs(run, rng, th):
         # (label, KC, KS, T, script, expected final (client status, server status, removed), inside the bound?)
         ("keepalive-below-timeout-server", 75000, 1536, 76800,
          rounds(42) + rnd(t1 + 75000) + [("c", t1 + 76800), ("s", t1 + 76800)], (2, 2, True), False),
+        ("after-the-removal", 75000, 1536, 76800,
+         rounds(42) + rnd(t1 + 75000) + [("c", t1 + 76800), ("s", t1 + 76800)] + rnd(t1 + 78600) + rnd(t1 + 80400), (2, 2, True), None),
         ("keepalive-below-timeout-client", 1536, 75015, 76800 + 15 * 1000,
          rounds(42) + rnd(t1 + 75015) + [("s", t1 + 76815), ("c", t1 + 76815, "new")], (5, 2, False), False),
+        ("after-dropped", 1536, 75015, 76800 + 15 * 1000,
+         rounds(42) + rnd(t1 + 75015) + [("s", t1 + 76815), ("c", t1 + 76815, "new")] + rnd(t1 + 78615) + rnd(t1 + 80415), (5, 2, False), None),
         ("just-inside-server", 74985, 1536, 76800,
          rounds(42) + rnd(t1 + 74985) + [("c", t1 + 76785), ("s", t1 + 76785), ("r", t1 + 76785, "new"), ("c", t1 + 76785, "new")]
          + rnd(t1 + 78585), (2, 2, False), True),
@@ -377,9 +381,11 @@ def check_idle_pairs(run, rng, th):
         try:
             okp, adm = idle_pair_compare(run, p, 1800, 0, 0, label, cases, impl, margs)
             final = p.statuses[-1]
-            if not adm:
+            if not adm and inside is not None:
                 run.oracle_violation("witness-schedule-not-admissible", {"session": label}, "harness/idlesim.py")
-            if inside:
+            if inside is None:
+                pass        # what happens after a time-out: correspondence only (the schedule is no longer admissible)
+            elif inside:
                 if not okp:
                     run.oracle_violation("witness-not-inside-bound", {"session": label}, "harness/idlesim.py")
                 idle_pair_oracle(run, p, 1800, 0, label)
